@@ -114,7 +114,7 @@ let kv (tok : string list) (key : string) : string =
 
 type case = {
   mutable id : string;
-  mutable clocks : clock list;
+  mutable clocks : clock_config list;
   mutable inputs : (nat * nat) list;
   mutable regs : reg list;
   mutable nets : (expr option * expr option) list;
@@ -143,7 +143,15 @@ let run_case (c : case) =
     | Some o -> o
     | None -> List.init nregs nat_of_int in
   let order = if !shuffle_seed <> 0 then shuffle order (!shuffle_seed + Hashtbl.hash c.id) else order in
-  let cfg = { cfg_clocks = c.clocks; cfg_regs = c.regs; cfg_inputs = c.inputs; cfg_order = order;
+  (* unset ClockConfig fields are resolved by the extracted model (constructor copy + applyConfig) *)
+  let clocks = resolve_clocks c.clocks in
+  List.iteri (fun i k ->
+      Printf.printf "E %d trig=%s rst=%s act=%s init=%d psync=%d name=%d rstname=%d f=%s\n" i
+        (match k.ck_trig with RISING -> "R" | FALLING -> "F" | RISING_AND_FALLING -> "B")
+        (match k.ck_rst with RST_SYNC -> "S" | RST_ASYNC -> "A" | RST_NONE -> "N")
+        (if k.ck_active_high then "H" else "L") (if k.ck_initregs then 1 else 0) (if k.ck_phasesync then 1 else 0)
+        (int_of_n k.ck_name) (int_of_n k.ck_rstname) (string_of_q k.ck_freq)) clocks;
+  let cfg = { cfg_clocks = clocks; cfg_regs = c.regs; cfg_inputs = c.inputs; cfg_order = order;
               cfg_rstev = c.rstev; cfg_stim = c.stim } in
   let nets = Array.of_list c.nets in
   let comb : network = fun outs ins r ->
@@ -185,16 +193,17 @@ let () =
          let c = match !cur with Some c -> c | None -> failwith ("line outside a case: " ^ line) in
          (match tok with
           | "clock" :: _ :: _ ->
-            let trig = match kv tok "trig" with "R" -> RISING | "F" -> FALLING | "B" -> RISING_AND_FALLING | s -> failwith ("trig " ^ s) in
-            let rst = match kv tok "rst" with "S" -> RST_SYNC | "A" -> RST_ASYNC | "N" -> RST_NONE | s -> failwith ("rst " ^ s) in
-            let ck = { ck_parent = (match kv tok "parent" with "-" -> None | p -> Some (nat_of_int (int_of_string p)));
-                       ck_freq = q_of_string (kv tok "freq");
-                       ck_name = n_of_int (int_of_string (kv tok "name"));
-                       ck_rstname = n_of_int (int_of_string (kv tok "rstname"));
-                       ck_trig = trig; ck_phasesync = (kv tok "psync" = "1"); ck_rst = rst;
-                       ck_active_high = (kv tok "act" = "H"); ck_initregs = (kv tok "init" = "1");
-                       ck_minrsttime = q_of_string (kv tok "mrt");
-                       ck_minrstcycles = n_of_int (int_of_string (kv tok "mrc")) } in
+            let opt s f = if s = "-" then None else Some (f s) in
+            let trig = opt (kv tok "trig") (function "R" -> RISING | "F" -> FALLING | "B" -> RISING_AND_FALLING | s -> failwith ("trig " ^ s)) in
+            let rst = opt (kv tok "rst") (function "S" -> RST_SYNC | "A" -> RST_ASYNC | "N" -> RST_NONE | s -> failwith ("rst " ^ s)) in
+            let ck = { cc_parent = (match kv tok "parent" with "-" -> None | p -> Some (nat_of_int (int_of_string p)));
+                       cc_freq = opt (kv tok "freq") q_of_string;
+                       cc_name = opt (kv tok "name") (fun s -> n_of_int (int_of_string s));
+                       cc_rstname = opt (kv tok "rstname") (fun s -> n_of_int (int_of_string s));
+                       cc_trig = trig; cc_phasesync = opt (kv tok "psync") (fun s -> s = "1"); cc_rst = rst;
+                       cc_active_high = opt (kv tok "act") (fun s -> s = "H"); cc_initregs = opt (kv tok "init") (fun s -> s = "1");
+                       cc_minrsttime = q_of_string (kv tok "mrt");
+                       cc_minrstcycles = n_of_int (int_of_string (kv tok "mrc")) } in
             c.clocks <- c.clocks @ [ ck ]
           | "input" :: _ :: _ ->
             c.inputs <- c.inputs @ [ (nat_of_int (int_of_string (kv tok "w")), nat_of_int (int_of_string (kv tok "clk"))) ]
